@@ -192,7 +192,7 @@ def load(repo=None):
     }
     M.initial_words = set(M.utils.random.INITIAL_WORDS)
     M.visitors = importlib.import_module('src.ir.visitors')
-    M.counters = dict(generate_expr=0, windows=[], visits=0, visit_cap=0)
+    M.counters = dict(generate_expr=0, windows=[], visits=0, visit_cap=0, assumed_pre=[])
     _instrument(M)
     return M
 
@@ -208,6 +208,15 @@ def _instrument(M):
             raise Budget('generate_expr calls > %d' % GEN_STEP_CAP)
         return orig_ge(self, *a, **k)
     gen_cls.generate_expr = generate_expr
+
+    # run-time check of the one precondition the proof part of C18 assumes (contracts/ranges.py, gen_type_params "count")
+    orig_gtp = gen_cls.gen_type_params
+
+    def gen_type_params(self, count=None, *a, **k):
+        if count is not None and not (isinstance(count, int) and 0 <= count <= 4):
+            M.counters['assumed_pre'].append(repr(count))
+        return orig_gtp(self, count, *a, **k)
+    gen_cls.gen_type_params = gen_type_params
 
     orig_visit = M.visitors.ASTVisitor.visit
 
@@ -231,6 +240,28 @@ def _instrument(M):
                 raise Budget('combinations examined in %s > budget + %d' % (w[-1]['func'], RUNAWAY))
         return orig_feas(type_graph, combination)
     M.tda.is_combination_feasible = is_combination_feasible
+
+    # the candidate combinations must be drawn lazily: at most max_combinations + 2 tuples per function (a materialised
+    # power set is 2^n tuples before the cap can bite).  type_erasure.py refers to the module name `itertools`.
+    import itertools as _it
+
+    class _CountingItertools:
+        chain = _it.chain
+
+        def __getattr__(self, name):
+            return getattr(_it, name)
+
+        @staticmethod
+        def combinations(iterable, r):
+            for c in _it.combinations(iterable, r):
+                w = M.counters['windows']
+                if w and w[-1].get('open'):
+                    w[-1]['draws'] = w[-1].get('draws', 0) + 1
+                    if w[-1]['cap'] and w[-1]['draws'] > w[-1]['cap'] + 2 + RUNAWAY:
+                        raise Budget('combinations drawn in %s > max_combinations + %d' % (w[-1]['func'], 2 + RUNAWAY))
+                yield c
+    if getattr(M.erasure, 'itertools', None) is _it:
+        M.erasure.itertools = _CountingItertools()
 
     te = M.erasure.TypeErasure
     orig_vfd = te.visit_func_decl
@@ -283,6 +314,7 @@ def configure(M, t):
     M.hash_counter[0] = 0
     M.counters['generate_expr'] = 0
     M.counters['windows'] = []
+    M.counters['assumed_pre'] = []
 
 
 def _frame(M, exc):
@@ -347,6 +379,11 @@ def run_task(M, t, cpu_alarm=CPU_ALARM):
             if m[key] > bound:
                 rec['findings'].append((kind, dict(function=fn, measured=m[key], bound=bound, max_depth=md,
                                                    path=m['path_' + key])))
+        if C['assumed_pre']:
+            rec['findings'].append(('assumed-precondition:gen_type_params.count', dict(
+                function='src.generators.generator.Generator.gen_type_params', counts=C['assumed_pre'][:5],
+                note='the proof obligation gen_type_params/site[call ut.random.integer]/inv[non-empty-range] assumes '
+                     'count is None or 0 <= count <= 4')))
         texts.append(stage(STAGES[1], lambda: M.utils.translate_program(translator, program)))
 
         def erase():
@@ -363,6 +400,14 @@ def run_task(M, t, cpu_alarm=CPU_ALARM):
                             function='src.transformations.type_erasure.TypeErasure.visit_func_decl',
                             in_function=w['func'], examined=w['calls'], candidates=len(w['nodes']),
                             max_combinations=maxc, bound=erasure_budget(maxc, len(w['nodes'])))))
+                        break
+                for w in wins:
+                    if maxc and w.get('draws', 0) > maxc + 2:
+                        rec['findings'].append(('erasure-budget', dict(
+                            function='src.transformations.type_erasure.TypeErasure.visit_func_decl',
+                            in_function=w['func'], drawn=w.get('draws', 0), candidates=len(w['nodes']),
+                            max_combinations=maxc, bound=maxc + 2,
+                            note='candidate combinations drawn from the power set before / beyond the cap')))
                         break
             rec['erased'] = bool(te.is_transformed)
             return te.result()
